@@ -181,6 +181,8 @@ var (
 	funcFile  = map[string]string{}
 	constType = map[string]string{} // package constant -> Go type ("" = untyped)
 	constVal  = map[string]constant.Value{}
+	// parsedFiles: every non-test file of package atree (stateful.go reads type and var declarations from them)
+	parsedFiles []*ast.File
 )
 
 func recvTypeName(fd *ast.FuncDecl) string {
@@ -215,6 +217,7 @@ func load(repo string) error {
 		if f.Name.Name != "atree" {
 			continue
 		}
+		parsedFiles = append(parsedFiles, f) // type / var declarations are read by stateful.go
 		for _, d := range f.Decls {
 			switch d := d.(type) {
 			case *ast.FuncDecl:
@@ -2203,6 +2206,8 @@ func main() {
 		fmt.Fprintln(os.Stderr, "gotrans:", err)
 		os.Exit(2)
 	}
+	// the stateful engine (storage state machine) writes <out>/TransStorage.lean
+	writeStateful(*out)
 	path := filepath.Join(*out, "Trans.lean")
 	content := b.String()
 	if old, err := os.ReadFile(path); err == nil && string(old) == content {
